@@ -212,11 +212,13 @@ func (c *Cell) ensureKids() {
 		c.kids = make([]*Cell, u.NumFields())
 		for i := range c.kids {
 			c.kids[i] = newCell(u.Field(i).Type())
+			c.kids[i].id = c.id // lazily materialised parts are as old as their object
 		}
 	case *types.Array:
 		c.kids = make([]*Cell, u.Len())
 		for i := range c.kids {
 			c.kids[i] = newCell(u.Elem())
+			c.kids[i].id = c.id
 		}
 	}
 }
@@ -247,6 +249,8 @@ func (c *Cell) load() Value {
 	}
 }
 
+// store writes v into the cell. Aggregate cells keep the identity of their
+// field/element cells (pointers to fields taken earlier stay valid).
 func (c *Cell) store(v Value) {
 	if !c.agg {
 		c.v = v
@@ -255,28 +259,36 @@ func (c *Cell) store(v Value) {
 	switch x := v.(type) {
 	case StructVal:
 		if x.f == nil {
-			c.kids = nil
+			c.zeroInPlace()
 			return
 		}
-		c.kids = nil
 		c.ensureKids()
 		for i, k := range c.kids {
 			k.store(x.f[i])
 		}
 	case ArrayVal:
 		if x.e == nil {
-			c.kids = nil
+			c.zeroInPlace()
 			return
 		}
-		c.kids = nil
 		c.ensureKids()
 		for i, k := range c.kids {
 			k.store(x.e[i])
 		}
 	case Poison:
-		c.kids = nil
+		c.zeroInPlace()
 	default:
 		panic(unsupported(fmt.Sprintf("store %T into aggregate cell %v", v, c.t)))
+	}
+}
+
+func (c *Cell) zeroInPlace() {
+	if !c.agg {
+		c.v = zeroValue(c.t)
+		return
+	}
+	for _, k := range c.kids {
+		k.zeroInPlace()
 	}
 }
 
